@@ -162,6 +162,7 @@ def hostile_plain(rng):
 
 
 TOMLS = [
+    'bad_metrics_max_age = "0s"\n', 'bad_metrics_max_age = "5ns"\n', 'bad_metrics_max_age = "-1h"\n', 'bad_metrics_max_age = "1ms"\n',
     '[[route]]\nkey = "cw"\ntype = "cloudWatch"\nregion = "us-east-1"\nnamespace = "x"\nflushMaxWait = -5\n',
     '[[route]]\nkey = "k"\ntype = "kafkaMdm"\nbrokers = ["@DEAD@"]\ntopic = "t"\ncodec = "snappy"\npartitionBy = "byOrg"\nschemasFile = "@DIR@/storage-schemas.conf"\nflushMaxWait = -5\n',
     '[[aggregation]]\nfunction = "sum"\nregex = "^foo"\nformat = "agg"\ninterval = 36028797018963968\nwait = 0\n',
